@@ -11,7 +11,7 @@ exec 9>"/tmp/.try_mutation.$(echo $R | tr / _).lock"; flock 9
 if [ -n "$(git -C $R status --porcelain)" ]; then echo "try_mutation: $R is not clean" >&2; exit 2; fi
 if ! git -C $R apply --check "$P" 2>/dev/null; then echo "try_mutation: patch does not apply: $P"; exit 3; fi
 git -C $R apply "$P"
-bin/wrglcheck -all -repo $R -verif "$(pwd)"
+"${WRGLBIN:-bin/wrglcheck}" -all -repo $R -verif "$(pwd)"
 rc=$?
 git -C $R checkout -- . && git -C $R clean -fdq
 exit $rc
